@@ -34,7 +34,8 @@ PARTIAL = [
 TRUSTED = [
     "Python dict/set modelled as association lists / duplicate-free lists; set.pop() and set iteration order as "
     "externally supplied priority lists (theorems quantify over them)",
-    "pop-order enumeration (all permutations of a batch) is done in ml_src/driver_c15.ml, not in Coq",
+    "pop-order enumeration (all permutations of a batch) and the merging of model states that differ only in dict/set "
+    "order are done in ml_src/driver_c15.ml, not in Coq (exact `run` cases do not use either)",
     "spy runs pass a set subclass with a harness-chosen pop() into the unmodified meld_new_hashes",
 ]
 ASSUMPTIONS = [
